@@ -72,6 +72,7 @@ type Explorer struct {
 	nAsserts int
 	concrete bool // init phase: no symbolic values allowed
 	panicMsg string
+	budgetMsg string // set by verifBudgetFails: running out of steps is a violation
 	ds       *domState
 	nDom     int
 	arena    []uint64
@@ -97,6 +98,7 @@ func (ex *Explorer) reset(it workItem) {
 	ex.inconcl = ""
 	ex.newItems = nil
 	ex.panicMsg = ""
+	ex.budgetMsg = ""
 	ex.ds = newDomState()
 	if len(ex.arena) == 256*512 {
 		ex.arenaPos = 0
@@ -646,6 +648,12 @@ func (w *Worker) runPath(d *Driver, it workItem) (items []workItem, r PathResult
 			r.Outcome = "done"
 		case engineAbort:
 			r.Outcome, r.Msg = p.kind, p.msg
+			if p.kind == "truncated" && p.msg == "step budget exhausted" && ex.budgetMsg != "" {
+				// the harness declared running out of steps a violation
+				// (the code under test must return within the budget)
+				r.Outcome, r.Msg = "violation", ex.budgetMsg
+				p.kind = "violation"
+			}
 			if p.kind == "violation" {
 				if ex.panicMsg != "" {
 					r.Msg += " [panic: " + ex.panicMsg + "]"
